@@ -109,6 +109,12 @@ CLAIMED["C37"] = dict(
     note="Trusted: z3, ref/irsem.py, ref/c3sem.py (fixed-width arithmetic in the operator's common type, no integer promotion as the language documents itself; agrees with gcc -fwrapv on ~7800 concrete points at build time), the engine. Loops bounded by construction; source UB is a premise. Outside: floats, strings, imports, pointer arithmetic/object layout, literals beyond int, constants of types other than int/byte (front-end crash: C28 territory), big-endian targets, the back ends.",
     technique=TECH_TV)
 
+CLAIMED["C38"] = dict(
+    level="model_checking", design="§4 C38",
+    text="The real ConstantFolder pass (is_const/is_defined/eval_const/on_block, correct, cast, remainder), CJumpPass and RemoveAddZeroPass run on real IR modules whose constant operands are symbolic over the entire range of each of the 8 integer types: every IR operator (folded or not), every integer cast pair, chains (y+-c)+-c with a fully symbolic run-time operand, depth-2 constant trees in one- and two-block layouts. The solver proves on every path of the pass: the resulting IR denotes the reference value whenever the source operation is defined; every constant left in the IR lies in its type's range; listed operators stay unfolded only where undefined; no exception escapes.",
+    note="Trusted: z3/cvc5, ref/irarith.py (semantics taken from ir2py, the C lowering and the back ends, which agree; shift count outside [0,width) and zero divisors are premises), the proxy engine (helpers correct/remainder run if-converted, every path re-validated concretely on the untouched code). Outside: trees deeper than 2, chains longer than 3, computed << counts, float/pointer constants.",
+    technique=TECH)
+
 NOT_APPLICABLE = {
     "C04": "property is about native execution of whole gcc/ppci-compiled programs; no x86-64 semantics model is in reach and running binaries is enumeration of concrete runs, not solver-based checking",
     "C06": "dataflow property over uninterpreted instruction semantics: a checker would be tag propagation in which a solver decides nothing",
